@@ -5,4 +5,7 @@ CHECKS = {
  'C18': dict(files=['C18_range.cpp'],
    explanation='Every member of range_t<T> from include/utap/range.h is compiled (clang-14 -O1) for int8_t, int16_t, int32_t and double and executed symbolically; all operands and the probe element are symbolic bit-vectors, the assertion is membership-in-result <=> set-theoretic definition computed in 64-bit arithmetic, so Z3 decides each law for every operand value at once (one path per operation). range*range is split into 16 sign cases. double: comparison-only operations over all non-NaN doubles with the FP theory; gt/lt on a 13-value boundary pool because nexttoward is executed concretely.',
    assumptions=['operands are non-empty intervals and results fit in T (the property\'s precondition), encoded as vf_assume on the symbolic operands', 'NaN bounds excluded for double']),
+ 'C14': dict(files=['C14_symmetry.cpp'],
+   explanation='Expression text for both operand orders is parsed by the real lexer/grammar/ExpressionBuilder in a document with variables of every operand class of the property, then typed by the real TypeChecker::checkExpression. Symbolic (eagerly forked) inputs: operator among the 11 commutative ones, both operand forms from a 24-entry pool (identifiers, constants and small expressions of int, bounded int, bool, double, clock, clock difference, scalar, struct, array, channel, string); inline-if c?a:b vs !c?b:a over the same pool; reference parameters T& / const T& against arguments of 11 types in both roles. Oracle: verdict and result type kind must be equal for the two orders.',
+   assumptions=['operand forms are the 24 listed in the harness; nesting deeper than one operator inside an operand is outside the claim']),
 }
